@@ -631,6 +631,41 @@ def ptr_stage(variant):
     return stage(key, run)
 
 
+def satgraph_stage(variant):
+    """C16 table part: the strong counter at its limit when every Cc to the object is owned by a traced container
+    (spec/SatGraph.tla prints the expected answers, the harness asks the real crate)."""
+    key = ['satgraph', variant]
+
+    def run(d):
+        rc, out = tlc('SatGraph.tla', 'SatGraph.cfg', d, workers=1, heap='1g', timeout=300)
+        txt = open(out, errors='replace').read()
+        m = re.search(r'<<"SG", "(.*)">>', txt)
+        if not m or 'No error has been found' not in txt:
+            raise ToolError('SatGraph.tla failed:\n' + txt[-2000:])
+        table = m.group(1).encode('utf-8').decode('unicode_escape')
+        tf = os.path.join(d, 'rows.json')
+        with open(tf, 'w') as fh:
+            fh.write(table)
+        rep = run_harness(variant, ['satgraph', '--in', tf])
+        res = {'kind': 'satgraph', 'variant': variant, 'params': {}, 'harness': rep, 'violations': [], 'events': 0, 'runs': 0, 'states': 2, 'transitions': 2}
+        if rep.get('crash'):
+            res['crash'] = True
+            return res
+        r = rep['result']
+        if r['rows'] == 0:
+            raise ToolError('satgraph: no row could be evaluated on build %s' % variant)
+        res['runs'] = r['rows']
+        res['events'] = r['rows'] * 6
+        res['sample'] = json.loads(table)[:3]
+        res['nontrivial'] = r['rows']
+        for b in r['bad']:
+            res['violations'].append({'run': 0, 'prop': 'C16', 'msg': 'counter at the limit, all pointers traced: %s' % json.dumps(b), 'n': 0, 'faulted': False, 'resur': False,
+                                      'behaviour': [b], 'signature': 'satgraph', 'variant': variant, 'source': 'satgraph'})
+        return res
+
+    return stage(key, run)
+
+
 # --------------------------------------------------------------------------- TLC engine stages
 
 COV_RE = re.compile(r'^<(\w+) line (\d+), col (\d+) to line (\d+), col (\d+) of module (\w+)>: (\d+):(\d+)', re.M)
@@ -833,6 +868,9 @@ def run_check(pid, tier, seed):
         if k == 'shapes':
             log('conformance shapes')
             return shapes_stage()
+        if k == 'satgraph':
+            log('saturation table', v)
+            return satgraph_stage(v)
         if k == 'policy':
             log('policy grid', v)
             return policy_stage(tier, v)
